@@ -95,6 +95,7 @@ type kase struct {
 	blockSeq     int
 	abandonedIdx []refBlock // index entries erased by a Rollback
 	histV        *uint64    // set while a historical (NewReadOnly(v)) read is being checked
+	pageSince    bool       // a GetBlocks page query went through the block cache since it was last purged
 }
 
 const sigRolledBack = "C10:rolled-back-entry-visible-in-history"
@@ -245,6 +246,39 @@ func (c *kase) checkGet(what string, line, got string, exp *[]byte, panicked boo
 	c.o.Count("oracle:get-checked")
 }
 
+// dbClean: the key set is not WFKeys as a whole, but the keys STORED in the database (committed, not rolled
+// back) that an iteration over prefix p can meet are: non-empty, at most 245 bytes, none of them a proper
+// byte-prefix of another, none a proper byte-prefix of p. The recorded iterator finding is about stored keys only (the VersionedIterator's seek
+// past prefixEnd(userKey)); pending, uncommitted keys go through the TxnIterator merge, which must be exact
+// whatever their shape — in particular when a pending key equals the iteration prefix.
+func (c *kase) dbClean(p []byte) bool {
+	var under []string
+	for k := range c.ref.hist {
+		if strings.HasPrefix(k, string(p)) {
+			if len(k) == 0 || len(k) > 245 {
+				return false // the other clauses of WFKeys: non-empty, at most 245 bytes
+			}
+			under = append(under, k)
+		} else if strings.HasPrefix(string(p), k) {
+			return false // a stored key is a proper prefix of the iteration prefix
+		}
+	}
+	for _, h := range append(append([]*refHandle{}, c.ref.copies...), c.ref.held...) {
+		for k := range h.hist {
+			if _, ok := c.ref.hist[k]; !ok && (strings.HasPrefix(k, string(p)) || strings.HasPrefix(string(p), k)) {
+				return false // a snapshot still holds keys the store has rolled back: keep to the simple case
+			}
+		}
+	}
+	sort.Strings(under)
+	for i := 1; i < len(under); i++ {
+		if strings.HasPrefix(under[i], under[i-1]) { // sorted: a proper prefix is followed by its extensions
+			return false
+		}
+	}
+	return true
+}
+
 func (c *kase) checkIter(what string, line string, got []kv, exp []kv, panicked bool, p []byte, rev bool) {
 	if panicked {
 		c.o.Count("res:panic")
@@ -253,9 +287,12 @@ func (c *kase) checkIter(what string, line string, got []kv, exp []kv, panicked 
 		}
 		return
 	}
-	if !c.wf {
+	if !c.wf && !c.dbClean(p) {
 		c.o.Count("oracle:skipped-not-WFKeys")
 		return
+	}
+	if !c.wf {
+		c.o.Count("oracle:iter-checked-stored-keys-prefix-free-under-prefix")
 	}
 	c.o.Count("oracle:iter-checked")
 	// ordered, duplicate-free
@@ -584,6 +621,55 @@ func (c *kase) block(avoid map[string]bool) (touched [][]byte) {
 	return
 }
 
+// pendingPrefixKey: pending (uncommitted) writes where one key IS the iteration prefix and others extend it —
+// a fresh key family, nothing of it stored — iterated forward and in reverse through one or two nested
+// transactions, then discarded. Iteration over pending operations must be exact for any key shape.
+func (c *kase) pendingPrefixKey() {
+	if c.dead {
+		return
+	}
+	r := c.o.Rng
+	c.o.Count("scenario:pending-key-equals-iteration-prefix")
+	seg := drv.Bytes(r, 3+r.Intn(3))
+	K := append([]byte{byte(len(seg))}, seg...)
+	for k := range c.ref.hist { // fresh: nothing stored under or above it
+		if strings.HasPrefix(k, string(K)) || strings.HasPrefix(string(K), k) {
+			return
+		}
+	}
+	depth := len(c.stack)
+	savedWF, before := c.wf, map[string]bool{}
+	for k := range c.written {
+		before[k] = true
+	}
+	c.nest()
+	c.set(K, c.rval())
+	ext := [][]byte{append(append([]byte{}, K...), 1, byte(r.Intn(256))), append(append([]byte{}, K...), 2, 0, byte(r.Intn(256))), append(append([]byte{}, K...), 1, 0xff)}
+	for i, e := range ext {
+		if i == 0 || r.Intn(3) > 0 {
+			c.set(e, c.rval())
+		}
+	}
+	if r.Intn(2) == 0 {
+		c.nest()
+		c.set(append(append([]byte{}, K...), 1, byte(r.Intn(256))), c.rval())
+		if r.Intn(3) == 0 {
+			c.del(ext[0])
+		}
+	}
+	for _, rev := range []bool{true, false} {
+		c.iter(K, rev)
+		c.iter(ext[0], rev)
+		c.iter(K[:0], rev)
+	}
+	for len(c.stack) > depth {
+		c.discard()
+		c.pop()
+	}
+	// the keys never reached the store: the key set of the case is what it was
+	c.wf, c.written = savedWF, before
+}
+
 // rewind is the offline-rollback interleaving: some heights committed and flushed into an sstable —
 // Rollback(t) — flush again, no compaction (the rollback's deletions now sit in their own sstable) — the
 // abandoned heights re-committed with a DIFFERENT key set (some keys of the abandoned blocks are not written
@@ -906,8 +992,14 @@ func (c *kase) run(n int, malformed bool) {
 			if r.Intn(6) == 0 {
 				c.checkHistory()
 			}
-		case x < 820:
+		case x < 815:
 			c.randomIndexRead()
+		case x < 820:
+			if malformed && len(c.stack) < 2 {
+				c.pendingPrefixKey()
+			} else {
+				c.randomIndexRead()
+			}
 		case x < 850:
 			c.readAt(c.rver(), c.rkey())
 		case x < 910:
